@@ -39,7 +39,7 @@ ImplStep(pair, lv, h) ==
 TReset == IsEvent("reset") /\ live' = {} /\ key' = [e \in ELEMS |-> 0] /\ hd' = [e \in ELEMS |-> -1]
           /\ heap' = <<>> /\ rc' = [e \in ELEMS |-> -1] /\ drift' = FALSE
 
-TCreate == /\ IsEvent("h_create") /\ live = {}
+TCreate == /\ IsEvent("h_create") /\ live = {} /\ Ev.ok
            /\ LET es == Ev.els  ks == Ev.keys
                   k1 == [e \in ELEMS |-> IF \E i \in 1..Len(es) : es[i] = e THEN ks[CHOOSE i \in 1..Len(es) : es[i] = e] ELSE 0]
                   h1 == ApplyNotes(hd, Ev.notes, 1)
@@ -48,6 +48,12 @@ TCreate == /\ IsEvent("h_create") /\ live = {}
                  /\ HandlesOK(lv, h1)
                  /\ ImplStep(H!CreateResult(es, k1), lv, h1)
 
+\* C14: a failed add / create / init reports failure only if the allocator refused, and changes nothing
+TAddFail == /\ IsEvent("h_add") /\ Ev.rc = -1 /\ Ev.inj > 0 /\ Ev.notes = <<>>
+            /\ UNCHANGED <<live, key, hd, heap, rc, drift>>
+TInit == /\ IsEvent("h_init") /\ live = {} /\ (Ev.ok \/ Ev.inj > 0) /\ UNCHANGED <<live, key, hd, heap, rc, drift>>
+TCreateFail == /\ IsEvent("h_create") /\ ~Ev.ok /\ Ev.inj > 0 /\ live = {} /\ UNCHANGED <<live, key, hd, heap, rc, drift>>
+TEndAll == /\ IsEvent("end") /\ Ev.live = 0 /\ UNCHANGED <<live, key, hd, heap, rc, drift>>   \* nothing leaked
 TAdd == /\ IsEvent("h_add") /\ Ev.el \notin live /\ Ev.rc = 0
         /\ LET h1 == ApplyNotes(hd, Ev.notes, 1)  lv == live \cup {Ev.el} IN
            /\ live' = lv /\ key' = [key EXCEPT ![Ev.el] = Ev.key] /\ hd' = h1
@@ -94,6 +100,6 @@ TIncreaseMin == /\ IsEvent("h_increasemin") /\ Ev.el \in live /\ Ev.key >= key[E
 \* end of an execution: the driver has drained the heap with getmin/deletemin; nothing may be left
 TEnd == IsEvent("h_end") /\ live = {} /\ UNCHANGED <<live, key, hd, heap, rc, drift>>
 
-Next == TReset \/ TCreate \/ TAdd \/ TGetMin \/ TDelete \/ TDeleteMin \/ TIncrease \/ TDecrease \/ TIncreaseMin \/ TEnd
+Next == TReset \/ TAddFail \/ TInit \/ TCreateFail \/ TEndAll \/ TCreate \/ TAdd \/ TGetMin \/ TDelete \/ TDeleteMin \/ TIncrease \/ TDecrease \/ TIncreaseMin \/ TEnd
 Spec == Init /\ [][Next]_vars
 =============================================================================
